@@ -167,3 +167,13 @@ pub enum CbBumpSkip {
     #[token(" ")] Sp,
     #[token("!")] Bang,
 }
+
+// callbacks on patterns whose match is confirmed by the end of input (look-around): the callback must see the whole match
+#[derive(Logos, Debug, PartialEq, Clone)]
+#[logos(error = LexErr)]
+pub enum CbLookEnd {
+    #[regex("[a-z]+(?-u:\\b)", decide_value)] Word(u32),
+    #[regex("[0-9]+$", decide_value, priority = 5)] LastNum(u32),
+    #[regex("[0-9]+", decide_bool)] Num,
+    #[token(" ")] Sp,
+}
